@@ -12,7 +12,8 @@ rule = ("scripts = 'e new fb|nofb|builtin' followed by dispatcher ops (set/cset/
         "hashf (mpt_dispatch_hash with the message in fragments a,b,c, each fragment in a block of exactly its size)/"
         "emit cmd (the handler reached hands the message on with mpt_dispatch_hash and returns what that returned)/"
         "hashn (dispatch by hash without a message)/hold w k (k reservations in a row that stay outstanding, then released)/"
-        "djb2 <hex> (mpt_hash_djb2 in C-string and counted mode)/"
+        "djb2 <hex> (mpt_hash_djb2 in C-string and counted mode)/rc on|off (events carry a reply context)/"
+        "reentry <mode> <victims> (handlers whose end-of-life call unregisters another id, on a dispatcher of their own)/"
         "reserve/fini/drop (release the table through the array interface)/tcopy r (copy-construct the element of "
         "registration r through the content traits); second part: the C++ class mpt::dispatch (xe new/set/clear/get/"
         "setdef/seterr/reserve/emit/hash/del); the last operand of emit/hash is what the invoked handler returns, suffix z = it also "
@@ -26,8 +27,8 @@ rule = ("scripts = 'e new fb|nofb|builtin' followed by dispatcher ops (set/cset/
         "stream 3 = random histories of 6..40 ops over up to 24 ids; non-trivial = the code's log shows an event "
         "delivered to a registered (non-fallback) handler and at least one end-of-life call, per distinct script")
 assumptions = [
-    "a handler answers with an int (flags or negative error) and may clear the event id, or re-enters the dispatcher exactly once through mpt_dispatch_hash on the same event and returns its result (emit cmd); other re-entrance (registering/clearing from inside a handler) is not driven",
-    "malloc never fails in the harness runs; the dispatcher has no fallback reply context (_ctx = NULL)",
+    "a handler answers with an int (flags or negative error) and may clear the event id, or re-enters the dispatcher exactly once through mpt_dispatch_hash on the same event and returns its result (emit cmd); end-of-life callbacks that unregister another id are driven on a dispatcher of their own (op reentry: judged against the property directly, not modelled); registering from inside a handler is not driven",
+    "malloc never fails in the harness runs; the dispatcher has no fallback reply context (_ctx = NULL); events may carry a reply context of their own (op rc on: a harness context that swallows the replies)",
     "emitted messages are one contiguous part; messages dispatched by hash may come in up to 16 fragments (mpt_message_read/mpt_message_argv as modelled for C17 in Impl/Message.lean)",
     "for separators that are not graphic characters (white-space splitting) the command word is exact (text after leading white space up to the first white-space character) whenever it holds no quote character and is followed by a blank or the end of the message; only with quotes, or a form feed / zero byte right behind the word, the spec accepts any non-empty prefix of the payload (the quoting rules of mpt_memtok are mirrored by the model and compared with the code)",
     "the fallback is the harness handler (registration 0), none, or the library's built-in unknownEvent (start mode builtin; its answers are part of the spec vocabulary)",
@@ -175,6 +176,32 @@ def _boundary():
                 out.append(("b:hold:%s:%d:%d:%d" % (new, len(out), w, k),
                             ["e new " + new] + pre + ["e hold %d %d" % (w, k), "e reserve %d" % max(w, 1), "e hold %d %d" % (w, k), "e emit id 1 1",
                                                       "e clear 1", "e hold %d 2" % w, "e set 1", "e hold 1 127", "e fini", "e hold %d 1" % w]))
+    # compaction inside reserve: every layout of free and active elements of tables with 2..7 elements, then every
+    # handler must still be reached and finalised
+    for n in range(2, 8):
+        for mask in range(1, 1 << n):
+            ids = [11 + k for k in range(n)]
+            gone = [ids[k] for k in range(n) if mask >> k & 1]
+            keep = [i for i in ids if i not in gone]
+            for tail in (["e reserve 1"], ["e hold 1 2", "e reserve 2", "e reserve 1"]):
+                out.append(("b:compact:%d:%d:%d" % (n, mask, len(tail)),
+                            ["e new fb"] + ["e set %d" % i for i in ids] + ["e clear %d" % i for i in gone] + tail +
+                            ["e emit id %d 0" % i for i in keep] + ["e emit id %d 1" % gone[0], "e fini"]))
+    # events that carry a reply context (the harness one swallows the replies): every event form against every start
+    # mode, default bookkeeping around it
+    for new in ("fb", "nofb", "builtin"):
+        for seq in itertools.product(["e emit id 1 1", "e emit id 7 0", "e emit id 9 1z", "e emit msg 0900 0", "e emit msg 01 1", "e emit none 0",
+                                      "e hash 000061 1", "e hash 0000 1", "e hashn", "e emit cmd 010078 1", "e rc off"], repeat=2):
+            out.append(("b:rc:%s:%s" % (new, "/".join(s[2:] for s in seq)),
+                        ["e new " + new, "e set 1", "e emit id 1 1", "e rc on"] + list(seq) + ["e emit none 0", "e emit none 0", "e fini"]))
+    # end-of-life callbacks that unregister another id (or their own): every victim assignment for up to 3 handlers,
+    # every teardown form
+    for n in (1, 2, 3):
+        for vic in itertools.product(range(n + 1), repeat=n):
+            modes = ["fini", "clearall", "drop"] + ["clear%d" % k for k in range(1, n + 1)] + ["cset%d" % k for k in range(1, n + 1)]
+            out.append(("b:reentry:%s" % "".join(map(str, vic)), ["e new nofb"] + ["e reentry %s %s" % (m, ",".join(map(str, vic))) for m in modes]))
+    out.append(("b:reentry:long", ["e new fb", "e reentry fini 2,3,4,5,6,7,8,0", "e reentry clearall 0,1,2,3,4,5,6,7", "e reentry drop 8,8,8,8,8,8,8,8",
+                                  "e reentry clear8 0,0,0,0,0,0,0,1", "e reentry cset1 2,1", "e reentry fini 9", "e reentry clear3 1,2", "e reentry boom 1"]))
     # known finding: an event reaches a reservation that is still outstanding
     out.append(("b:holdemit", ["e new nofb", "e set 5", "e holdemit 1"]))
     # the hash function itself: C string mode and counted mode
@@ -271,7 +298,7 @@ def _random(tier, seed, scale):
             lines.append("e reserve %d" % r.choice([1, 1, 2, 8]))
         for _ in range(r.choice([6, 12, 25, 40])):
             kind = r.choice(["set", "set", "set", "cset", "clear", "clear", "emit", "emit", "emit", "msg", "none", "none", "hash", "reserve",
-                             "clearall", "fini", "bad", "drop", "tcopy", "cmd", "hashf", "hold", "hashn"])
+                             "clearall", "fini", "bad", "drop", "tcopy", "cmd", "hashf", "hold", "hashn", "rc"])
             res = r.choice(["0", "0", "1", "1", "2", "3", "-1", "-4", "1z", "3z", "4", "5", "%d" % r.randrange(-20, 70000)]
                            + (["%dz" % r.randrange(0, 8)] if r.random() < 0.2 else []))
             i = r.choice(ids)
@@ -314,6 +341,8 @@ def _random(tier, seed, scale):
                 lines.append("e hold %d %d" % (r.choice([0, 1, 1, 1, 2, 8]), r.choice([1, 2, 5, 130])))
             elif kind == "hashn":
                 lines.append("e hashn")
+            elif kind == "rc":
+                lines.append("e rc " + r.choice(["on", "on", "off"]))
             elif kind == "fini":
                 if r.random() < 0.3:
                     lines.append("e fini")
@@ -342,7 +371,7 @@ class _XX:
         out = []
         alpha = ["xe set 1", "xe set 2", "xe set 0", "xe clear 1", "xe clear 2", "xe get 1", "xe get 0", "xe setdef 1", "xe setdef 2", "xe setdef 0",
                  "xe seterr", "xe reserve 1", "xe emit id 1 1", "xe emit id 1 0", "xe emit id 2 3z", "xe emit id 5 0", "xe emit msg 01 1",
-                 "xe emit none 0", "xe emit none 1", "xe hash 000061 2", "xe set %d" % HA, "xe del", "xe emit cmd 010061 3", "xe emit cmd 0200 1"]
+                 "xe emit none 0", "xe emit none 1", "xe hash 000061 2", "xe set %d" % HA, "xe del", "xe emit cmd 010061 3", "xe emit cmd 0200 1", "xe rc on"]
         for new in ("fb", "nofb", "builtin"):
             for ln in range(1, (2 if tier == "quick" else 3) + 1):
                 for combo in itertools.product(alpha, repeat=ln):
